@@ -60,3 +60,30 @@ def pattern(length, salt, text=False):
     if text:
         return bytes(0x20 + ((i * 7 + salt * 13 + (i >> 4)) % 95) for i in range(length))
     return bytes(((i * 31 + salt * 17 + (i >> 8) * 5) ^ (i >> 3)) & 0xFF for i in range(length))
+
+
+class ClientWorld:
+    """Real master Network + RemoteNode/SdoClient against a RefSdoServer peer."""
+
+    def __init__(self, ctx, swarm=True, node_id=None, od=None, node_cls=None):
+        from simcan.models.sdo_server import RefSdoServer
+        self.ctx = ctx
+        self.ch = make_channel(ctx, swarm)
+        self.net, self.bus = make_network(ctx, self.ch, "master")
+        if node_id is None:
+            node_id = 1 + ctx.choice(127, "node")
+        self.node_id = node_id
+        cls = node_cls or canopen.RemoteNode
+        self.node = cls(node_id, od if od is not None else canopen.ObjectDictionary())
+        self.net.add_node(self.node)
+        self.ep = PeerEndpoint(self.ch, "server")
+        self.srv = RefSdoServer(ctx, self.ep, 0x600 + node_id, 0x580 + node_id)
+        self.ep.handler = self.srv.handler
+        self.srv.resp_delay = (0, 20 * US, 2 * MS)[ctx.choice(3, "respdelay")] if swarm else 0
+        to = (0.3, 0.12, 1.0)[ctx.choice(3, "timeout")] if swarm else 0.3
+        worst = 2 * (self.ch.transport.lat_hi + self.ch.frame_time(8)) + self.srv.resp_delay
+        if to * SEC < 4 * worst:
+            to = 0.3
+        self.node.sdo.RESPONSE_TIMEOUT = to
+        self.timeout = to
+        self.worst_rtt = worst
